@@ -337,6 +337,54 @@ func runC12(p *core.Program, r *core.Report) {
 				}
 			}
 		}
+		// the two cells are inside the copy: one is the loop counter i (from len-1 or below,
+		// down to 0 or 1), the other a remainder modulo i+1 (so at most i)
+		for _, in := range path.Instrs(fn) {
+			y, ok := in.(*ssa.Call)
+			if !ok || swapFn == nil || path.StaticCallee(y) != swapFn {
+				continue
+			}
+			a0, ok0 := y.Call.Args[0].(*ssa.IndexAddr)
+			a1, ok1 := y.Call.Args[1].(*ssa.IndexAddr)
+			if !ok0 || !ok1 {
+				continue
+			}
+			inRange := func(iv, jv ssa.Value) bool {
+				ph, ok := iv.(*ssa.Phi)
+				if !ok || phiStep(ph) != -1 {
+					return false
+				}
+				// start at len(src)-k, k >= 1
+				isLen := func(v ssa.Value) bool { return isLenOfValue(x, v, src) || isLenOfValue(x, v, dst) }
+				okStart := true
+				for n := int64(1); n <= 6; n++ {
+					v, ok, used := evalLenExpr(phiInit(ph), isLen, n)
+					if !ok || !used || v > n-1 {
+						okStart = false
+					}
+				}
+				// runs while i >= 0 (or a larger bound)
+				okStop := guardedByHeader(ph, func(cd path.Cond) bool {
+					k, isK := path.IntConst(cd.Y)
+					return cd.X == ssa.Value(ph) && isK && ((cd.Op == token.GEQ && k >= 0) || (cd.Op == token.GTR && k >= -1))
+				})
+				// j = something % (i + 1)
+				okJ := false
+				if rem, ok := jv.(*ssa.BinOp); ok && rem.Op == token.REM {
+					if add, ok := rem.Y.(*ssa.BinOp); ok && add.Op == token.ADD && add.X == ssa.Value(ph) {
+						if k, isK := path.IntConst(add.Y); isK && k == 1 {
+							okJ = true
+						}
+					}
+					if rem.Y == ssa.Value(ph) { // % i : at most i-1 (i >= 1 needed, else division by zero)
+						okJ = false
+					}
+				}
+				return okStart && okStop && okJ
+			}
+			c.ob("BD1", "gogu.Shuffle", "swapped cells lie inside the copy", p.InstrPos(y), inRange(a0.Index, a1.Index) || inRange(a1.Index, a0.Index),
+				"the cells swapped must be i (counting down from at most len-1 to at least 0) and a remainder modulo i+1: anything else can index past the copy")
+		}
 		c.ob("PV4", "gogu.Shuffle", "only transpositions of the copy", c.fpos(fn), okSwaps && nSw >= 1, "after the copy the only writes must be swaps of two cells of the copy: the result is a permutation of the input")
 		if swapFn != nil {
 			// swap really swaps: *a = old *b, *b = old *a
@@ -392,7 +440,8 @@ func runC12(p *core.Program, r *core.Report) {
 				continue
 			}
 			cd, ok := path.CondOf(iff)
-			if !ok || cd.Op != token.LSS || cd.Neg {
+			// i < j (i <= j only adds the swap of the middle cell with itself)
+			if !ok || (cd.Op != token.LSS && cd.Op != token.LEQ) || cd.Neg {
 				continue
 			}
 			pi, ok1 := cd.X.(*ssa.Phi)
@@ -543,7 +592,8 @@ func runC12(p *core.Program, r *core.Report) {
 			if win.High != nil {
 				hi = x.path(win.High)
 			}
-			front := lo == "n" && hi == "" && hasFact(fs, "n", ">", "0")
+			// n == 0 drops nothing from either end, so it may go either way
+			front := lo == "n" && hi == "" && (hasFact(fs, "n", ">", "0") || hasFact(fs, "n", ">=", "0"))
 			back := lo == "" && hi == "(len(slice)-gogu.Abs(n))" && (hasFact(fs, "n", "<=", "0") || hasFact(fs, "n", "<", "0"))
 			c.ob("AG6", "gogu.Drop", "drops from the front for n > 0, from the back otherwise", p.InstrPos(win), front || back, fmt.Sprintf("the view returned is slice[%s:%s]; expected slice[n:] under n > 0 or slice[:len(slice)-Abs(n)] otherwise", lo, hi))
 		}
